@@ -35,9 +35,10 @@ RULE = ('one evaluation = one seeded run: (hist) a 20-150 call Cache history wit
         'tags, expiry, settings, queue order, shard routing, JSONDisk, Deque, Index) and then modified; non-trivial = at least one '
         'lifecycle event / the fixture was read; distinct = SHA-256 of the case')
 RULE += ' ' + 'A third of the object scenarios build the FanoutCache / Deque / Index without a directory (own temporary directory) and collect the earlier handles after every lifecycle event.'
+RULE += ' ' + 'The fixture holds handles pickled by the released version (Cache, FanoutCache, Deque, Index), which must load and lead to the same collections; the FanoutCache object scenario keeps a named cache and a named index with settings of their own while the parent is reopened with explicit settings; JSONDisk histories call iterkeys().'
 ASSUMPTIONS = ['a real fork() carrying an open SQLite handle is not simulated; the pid-change seam checks the library\'s reaction to it',
                'the fixture was written on POSIX by the pinned release (fixtures/make_fixture.py)']
-PROBES = ('lifecycle', 'fork', 'thread_stretch', 'pickle', 'fixture_items', 'newproc', 'move', 'own_temporary_directory')
+PROBES = ('lifecycle', 'fork', 'thread_stretch', 'pickle', 'fixture_items', 'newproc', 'move', 'own_temporary_directory', 'released_pickles_loaded', 'parent_reopened_with_settings')
 TECHNIQUE = 'deterministic simulation (simulated processes, pid seam, thread tasks, virtual clock) + model-based checking across lifecycle events; golden-directory regression of the released on-disk format'
 LEVEL_TEXT = ('seeded exploration of histories with lifecycle events under the simulator (process identity and threads are simulated, so '
               'fork and cross-process sharing are replayable), each call compared with the reference model through whichever handle is '
@@ -61,7 +62,7 @@ def gen_case(seed, tier):
         return {'seed': seed, 'cfg': {'kind': 'objects', 'which': rng.choice(('fanout', 'deque', 'index', 'django')),
                                       'events': [rng.choice(('reopen', 'pickle', 'newproc', 'fork')) for _ in range(rng.randint(2, 6))],
                                       'shards': rng.choice((1, 2, 3)), 'size_limit': rng.choice((None, 4000000)),
-                                      'maxlen': rng.choice((None, 3, 5)), 'temp': rng.random() < 0.3}}
+                                      'maxlen': rng.choice((None, 3, 5)), 'temp': rng.random() < 0.3, 'reopen_settings': rng.random() < 0.5}}
     settings = seqcache.gen_settings(rng, 'c18')
     if rng.random() < 0.4:
         settings['sqlite_cache_size'] = rng.choice((1000, 4096))
@@ -87,7 +88,7 @@ def gen_case(seed, tier):
                 op['v'] = {'big': ['str', op['v']['big'][1], op['v']['big'][2]]}
             if isinstance(op.get('tag'), dict):
                 op['tag'] = 't1'
-            if op['op'] in ('iterkeys', 'read', 'incr', 'decr'):
+            if op['op'] in ('read', 'incr', 'decr'):
                 continue      # JSONDisk stores compressed JSON: incr/decr need a native number column
             clean.append(op)
         prog = clean
@@ -226,6 +227,16 @@ def run_hist(case):
                 sim.violations = []
                 continue
             if name == 'iterkeys':
+                r1 = run_op(cache, {'op': 'iterkeys'})
+                r2 = run_op(cache, {'op': 'iterkeys', 'reverse': True})
+                if r1[0] != 'ok' or r2[0] != 'ok':
+                    violations.append({'rule': 'C18/result', 'sig': 'iterkeys', 'detail': '%s %s' % (r1, r2)})
+                    break
+                from ..seq import check_sorted_keys
+                check_sorted_keys(json.loads(r1[1][5:]), json.loads(r2[1][5:]), [it.key for it in model.rows.values()],
+                                  violations, PROPERTY, order=cfg.get('disk') != 'json')
+                if violations:
+                    break
                 continue
             now = sim.now
             nops += 1
@@ -280,14 +291,25 @@ def run_objects(case):
                 probes['own_temporary_directory'] = 1
             else:
                 obj = dc.FanoutCache(path, shards=cfg['shards'], cull_limit=3, statistics=1, **kw)
-            want_limit = (cfg['size_limit'] or 2 ** 30) / cfg['shards']
+            pset = {'limit': (cfg['size_limit'] or 2 ** 30) / cfg['shards'], 'cull': 3}
             model = {}
+            # named sub-objects kept below the parent's directory have settings of their own, given when they were made: a
+            # parent opened later - with whatever settings of ITS own - finds them as they are
+            sub = obj.cache('named', disk_pickle_protocol=2, size_limit=10 ** 7)
+            sub_was = {k: getattr(sub, k) for k in ('size_limit', 'cull_limit', 'statistics', 'disk_pickle_protocol', 'eviction_policy')}
+            ix_was = {k: getattr(obj.index('ix').cache, k) for k in ('size_limit', 'cull_limit', 'disk_pickle_protocol', 'eviction_policy')}
+            submodel, ixmodel = {}, {}
 
             def mutate(o, i):
                 k = rng.choice(('a', 'b', 1, (1, 'x'), b'z'))
                 v = 'v%d' % i
                 o.set(k, v, retry=True)
                 model[fp(k)] = fp(v)
+                k2 = rng.choice(((1, 'x'), (2, ('y', None)), 'plain'))
+                o.cache('named').set(k2, 's%d' % i, retry=True)
+                submodel[fp(k2)] = fp('s%d' % i)
+                o.index('ix')[k2] = 'i%d' % i
+                ixmodel[fp(k2)] = fp('i%d' % i)
 
             def observe(o):
                 return sorted((fp(k), fp(o.get(k, retry=True))) for k in o)
@@ -296,13 +318,31 @@ def run_objects(case):
                 return sorted(model.items())
 
             def reopen():
+                if cfg.get('reopen_settings') and rng.random() < 0.5:
+                    # a restart with settings of the parent's own, given explicitly: they are the parent's from now on
+                    probes['parent_reopened_with_settings'] = 1
+                    pset['limit'] = 2000000 / cfg['shards']
+                    pset['cull'] = 5
+                    return dc.FanoutCache(path, shards=cfg['shards'], size_limit=2000000, cull_limit=5)
                 return dc.FanoutCache(path, shards=cfg['shards'])
 
             def extra(o, when):
-                if o.size_limit != want_limit or o.cull_limit != 3 or o.statistics != 1:
+                if o.size_limit != pset['limit'] or o.cull_limit != pset['cull'] or o.statistics != 1:
                     violations.append({'rule': 'C18/setting-not-persisted', 'sig': 'fanout',
-                                       'detail': '%s: size_limit %r (want %r), cull_limit %r, statistics %r' % (
-                                           when, o.size_limit, want_limit, o.cull_limit, o.statistics)})
+                                       'detail': '%s: size_limit %r (want %r), cull_limit %r (want %r), statistics %r' % (
+                                           when, o.size_limit, pset['limit'], o.cull_limit, pset['cull'], o.statistics)})
+                s_now = o.cache('named')
+                got_s = {k: getattr(s_now, k) for k in sub_was}
+                got_i = {k: getattr(o.index('ix').cache, k) for k in ix_was}
+                if (got_s != sub_was or got_i != ix_was) and not violations:
+                    violations.append({'rule': 'C18/setting-not-persisted', 'sig': 'named-sub-object',
+                                       'detail': '%s: named cache %r (made with %r), named index %r (made with %r)' % (when, got_s, sub_was, got_i, ix_was)})
+                sub_items = sorted((fp(k), fp(s_now.get(k, retry=True))) for k in s_now)
+                ix_items = sorted((fp(k), fp(v)) for k, v in o.index('ix').items())
+                if (sub_items != sorted(submodel.items()) or ix_items != sorted(ixmodel.items())) and not violations:
+                    violations.append({'rule': 'C18/contents-after-lifecycle-event', 'sig': 'named-sub-object',
+                                       'detail': '%s: named cache %s (expected %s), named index %s (expected %s)' % (
+                                           when, sub_items[:4], sorted(submodel.items())[:4], ix_items[:4], sorted(ixmodel.items())[:4])})
         elif which == 'django':
             mod = seams.install_django()
             params = {'SHARDS': cfg['shards'], 'OPTIONS': {'cull_limit': 3}}
@@ -562,6 +602,47 @@ def run_fixture(case):
         if [(fp(k), fp(v)) for k, v in x.items()] != [(fp(vals.dec(a)), fp(vals.dec(b))) for a, b in man['caches']['index']] and not violations:
             bad('index', vals.brief(list(x.items())))
         x.cache.close()
+        # handles pickled by the released version (job payloads, values in other caches, arguments kept on disk) still load and
+        # still lead to the same collections
+        hpath = os.path.join(root, 'handles.json')
+        if os.path.exists(hpath) and not violations:
+            import pickle
+            for hname, h in sorted(json.load(open(hpath))['handles'].items()):
+                blob = h['pickle_p0'].replace('@ROOT@', root).encode('latin-1')
+                try:
+                    obj = pickle.loads(blob)
+                except Exception as exc:  # noqa
+                    bad('pickled-handle:' + hname, 'pickle written by %s does not load: %s: %s' % (man['written_by'], type(exc).__name__, str(exc)[:100]))
+                    break
+                probes['released_pickles_loaded'] = probes.get('released_pickles_loaded', 0) + 1
+                closer = getattr(obj, 'close', None) or obj.cache.close
+                try:
+                    if type(obj).__name__ != h['kind'] or obj.directory != os.path.join(root, h['dir']):
+                        bad('pickled-handle:' + hname, '%s on %s' % (type(obj).__name__, obj.directory))
+                    elif h['kind'] == 'Deque':
+                        wantlen = float('inf') if h['maxlen'] is None else h['maxlen']
+                        if obj.maxlen != wantlen or [fp(v) for v in obj] != [fp(vals.dec(v)) for v in man['caches']['deque']]:
+                            bad('pickled-handle:' + hname, 'maxlen %r, items %s' % (obj.maxlen, vals.brief(list(obj))))
+                    elif h['kind'] == 'Index':
+                        if [(fp(k), fp(v)) for k, v in obj.items()] != [(fp(vals.dec(a)), fp(vals.dec(b))) for a, b in man['caches']['index']]:
+                            bad('pickled-handle:' + hname, vals.brief(list(obj.items())))
+                    elif h['kind'] == 'FanoutCache':
+                        it = man['caches']['fanout']['items'][0]
+                        if len(obj._shards) != h['shards'] or obj.timeout != h['timeout'] or not vals.same(obj.get(vals.dec(it['k']), retry=True), vals.dec(it['v'])):
+                            bad('pickled-handle:' + hname, 'shards %d timeout %r' % (len(obj._shards), obj.timeout))
+                    elif h.get('disk') == 'JSONDisk':
+                        it = man['caches']['json']['items'][0]
+                        if type(obj.disk).__name__ != 'JSONDisk' or obj.get(it['k'], default='<absent>') != vals.dec(it['v']):
+                            bad('pickled-handle:' + hname, 'disk %s' % type(obj.disk).__name__)
+                    else:
+                        fresh = dc.Cache(os.path.join(root, h['dir']))
+                        if obj.timeout != h['timeout'] or len(obj) != len(fresh) or sorted(fp(k) for k in obj) != sorted(fp(k) for k in fresh):
+                            bad('pickled-handle:' + hname, 'timeout %r, %d items (a fresh handle: %d)' % (obj.timeout, len(obj), len(fresh)))
+                        fresh.close()
+                finally:
+                    closer()
+                if violations:
+                    break
         probes['fixture_items'] = n
     finally:
         world.close()
